@@ -93,10 +93,6 @@ Proof.
       rewrite H5; repeat split; auto.
 Qed.
 
-Lemma with_rewards_counts P lvl x x1 :
-  with_rewards P lvl x = Ok x1 -> min_balance P x1 = min_balance P x /\ acct_is_zero x1 = acct_is_zero x \/ True.
-Proof. intros _. now right. Qed.
-
 Lemma auto_heartbeat_money E b x :
   a_algos (auto_heartbeat E b x) = a_algos x /\ a_rbase (auto_heartbeat E b x) = a_rbase x /\
   a_status (auto_heartbeat E b x) = a_status x.
